@@ -56,12 +56,14 @@ type c20Part struct {
 }
 
 type c20Case struct {
-	Kind   string // "1d" | "2d" | "mixed"
+	Kind   string // "1d" | "2d" | "mixed" | "hist1" | "hist2" (history on the same partial results) | "descr" (map observers of the bin descriptions)
 	X, Y   c20Axis
 	Elems  []c20Elem
 	Splits [][]int   // lengths of consecutive parts (sum = len(Elems)), each splitting has 1..4 parts
 	Repr   string    // how the list is built: eager | lazy-map | lazy-accept
-	Parts  []c20Part // mixed only
+	Parts  []c20Part // mixed; hist1/hist2: the parts, each binned once on the grid X (and Y)
+	Steps  [][]int   // hist1/hist2: every step is one collectBinning over these partial results (indices into Parts, repetition allowed)
+	Source string    // descr: which description list is observed: "descr" (binning), "xd" | "yDescr" (binning2d, grid X on that axis)
 	Note   string
 }
 
@@ -251,6 +253,27 @@ func (c *c20Case) skipReason() string {
 		if r := check(c.Y, col(c.Elems, gy)); r != "" {
 			return r
 		}
+	case "hist1", "hist2":
+		var all []float64
+		for _, p := range c.Parts {
+			if r := check(c.X, col(p.Elems, gx)); r != "" {
+				return r
+			}
+			if c.Kind == "hist2" {
+				if r := check(c.Y, col(p.Elems, gy)); r != "" {
+					return r
+				}
+			}
+			for k := 0; k < 4; k++ { // a part may enter one collect up to four times
+				all = append(all, col(p.Elems, gv)...)
+			}
+		}
+		if !finite(all...) {
+			return "non-finite"
+		}
+		return sumsExact(all)
+	case "descr":
+		return check(c.X, nil)
 	case "mixed":
 		var all []float64
 		for _, p := range c.Parts {
@@ -748,6 +771,28 @@ func (c *c20Case) human() string {
 	case "2d":
 		return fmt.Sprintf("[%s].binning2d(x: %s; y: %s; e->e.x, e->e.y, e->e.v); splittings %v", strings.Join(es, ","), ax(c.X), ax(c.Y), c.Splits)
 	}
+	switch c.Kind {
+	case "descr":
+		return fmt.Sprintf("all map observers on every bin description in %s of a binning on %s", c.Source, ax(c.X))
+	case "hist1", "hist2":
+		var ps []string
+		for i, p := range c.Parts {
+			var pe []string
+			for _, e := range p.Elems {
+				if c.Kind == "hist2" {
+					pe = append(pe, fmt.Sprintf("{x:%s,y:%s,v:%s}", e.X.Human, e.Y.Human, e.V.Human))
+				} else {
+					pe = append(pe, fmt.Sprintf("{x:%s,v:%s}", e.X.Human, e.V.Human))
+				}
+			}
+			ps = append(ps, fmt.Sprintf("p%d=[%s]", i, strings.Join(pe, ",")))
+		}
+		grid := "binning(" + ax(c.X) + ")"
+		if c.Kind == "hist2" {
+			grid = "binning2d(x: " + ax(c.X) + "; y: " + ax(c.Y) + ")"
+		}
+		return fmt.Sprintf("%s; every part binned once with %s; then collectBinning over the partial results %v, one call after the other", strings.Join(ps, " "), grid, c.Steps)
+	}
 	var ps []string
 	for _, p := range c.Parts {
 		var pe []string
@@ -826,6 +871,10 @@ func c20Run(c *c20Case, id int, sum *Summary, cw *CaseWriter) {
 	}
 	ids := fmt.Sprint(id)
 	switch c.Kind {
+	case "hist1", "hist2":
+		c20RunHistory(c, id, sum, cw, human, violate)
+	case "descr":
+		c20RunDescr(c, id, sum, cw, human, violate)
 	case "1d":
 		args := append([]value.Value{c20List(c.Elems, c.Repr)}, axisArgs(c.X)...)
 		v, err := evalExpr(c20Expr1, []string{"l", "s", "z", "c"}, args...)
@@ -971,7 +1020,7 @@ func c20Run(c *c20Case, id int, sum *Summary, cw *CaseWriter) {
 		sum.Count("count", countBucket(a.Count))
 		sum.Count("size_kind", sizeKind(a.Size.F()))
 	}
-	if c.Kind != "mixed" {
+	if c.Kind == "1d" || c.Kind == "2d" {
 		sum.Count("elements", bucket(len(c.Elems)))
 		sum.Count("splittings_per_case", bucket(len(c.Splits)))
 		edge, under, over := false, false, false
@@ -1316,6 +1365,24 @@ func c20Corpus() []*c20Case {
 			Elems: []c20Elem{el2(-100, 1, 1), el2(1, 10.5, 1), el2(100, 13, 1)}, Splits: [][]int{{3}, {1, 2}, {1, 1, 1}}},
 		{Kind: "2d", X: ax(0, 1, 0), Y: ax(0, 1, 0), Repr: "eager", Note: "2-d, count=0 on both axes",
 			Elems: []c20Elem{el2(0, 0, 1), el2(-1, 0, 2), el2(0, -1, 4), el2(-1, -1, 8)}, Splits: [][]int{{4}, {2, 2}}},
+		// seeded C20-e: collectBinning summed into the first partial result; visible only when the same partial
+		// results are inspected or collected again
+		{Kind: "hist1", X: ax(-2, 0.5, 6), Repr: "eager", Note: "three parts binned once, collected four times (orders 012, 012, 120, 201)",
+			Parts: []c20Part{
+				{Elems: []c20Elem{el(-100, 1), el(-2, 2), el(-1.5, 4), el(0, 8), el(1, -16)}},
+				{Elems: []c20Elem{el(-2.25, 32), el(0.25, 64), el(0.5, 0), el(1e300, 128)}},
+				{Elems: []c20Elem{el(0.75, 256), el(-1.75, -512), el(1, 1024), el(0, 2048)}}},
+			Steps: [][]int{{0, 1, 2}, {0, 1, 2}, {1, 2, 0}, {2, 0, 1}}},
+		{Kind: "hist2", X: ax(0, 1, 2), Y: ax(0, 2, 1), Repr: "eager", Note: "2-d history: two collects and a sub-multiset",
+			Parts: []c20Part{
+				{Elems: []c20Elem{el2(1, 1, 1), el2(-1, 5, 2)}},
+				{Elems: []c20Elem{el2(2, 0, 4), el2(1e19, -1, 8)}}},
+			Steps: [][]int{{0, 1}, {1, 0}, {0, 0, 1}}},
+		// seeded C20-f: isAvail("min") was true on the underflow bin (bin.Get returns Float(0),false)
+		{Kind: "descr", X: ax(-2, 0.5, 6), Source: "descr", Repr: "eager", Note: "observers on descr"},
+		{Kind: "descr", X: ax(0, 1, 0), Source: "descr", Repr: "eager", Note: "observers on descr, count=0: only the two outer bins"},
+		{Kind: "descr", X: ax(-100, 25, 64), Source: "xd", Repr: "eager", Note: "observers on xd"},
+		{Kind: "descr", X: ax(1, 0.25, 3), Source: "yDescr", Repr: "eager", Note: "observers on yDescr"},
 		{Kind: "mixed", Repr: "eager", Note: "different counts: an error",
 			Parts: []c20Part{{Axis: ax(0, 1, 2), Elems: []c20Elem{el(1, 1)}}, {Axis: ax(0, 1, 3), Elems: []c20Elem{el(1, 1)}}}},
 		{Kind: "mixed", Repr: "eager", Note: "size 0 and negative size: outside the property, the model follows the code",
@@ -1325,16 +1392,18 @@ func c20Corpus() []*c20Case {
 
 func cmdC20(seed int64, tier, outDir string) {
 	n1, n2, nm := 600, 300, 60
+	nh1, nh2, nd := 120, 50, 80 // histories on the same partial results (1-d, 2-d), description observers
 	if tier == "thorough" {
 		n1, n2, nm = 18000, 9000, 1800
+		nh1, nh2, nd = 3600, 1500, 2400
 	}
-	perShard := 61 // 16 shards in the quick tier: one per worker of tools/check.py
+	perShard := 77 // 16 shards in the quick tier: one per worker of tools/check.py
 	if tier == "thorough" {
 		perShard = 400
 	}
 	r := NewRng(seed)
 	sum := NewSummary("C20", seed, tier)
-	sum.Rule = "lists of records {x,y,v} (ints and floats, exactly representable; positions on bin edges, next float beside an edge, inside bins, near and far (up to 2^900*size) outside, zero, negative) binned by list.binning / list.binning2d through Generate on start/size/count grids (count 0..64; sizes powers of two, small integers, dyadic fractions) and re-combined by collectBinning over splittings into <= 4 consecutive parts (all splittings for short lists, sampled otherwise); cases in which a float operation of the code would round are skipped and counted; non-trivial = at least one element exactly on an edge and at least one in each outer bin; distinct by hash of the input"
+	sum.Rule = "lists of records {x,y,v} (ints and floats, exactly representable; positions on bin edges, next float beside an edge, inside bins, near and far (up to 2^900*size) outside, zero, negative) binned by list.binning / list.binning2d through Generate on start/size/count grids (count 0..64; sizes powers of two, small integers, dyadic fractions) and re-combined by collectBinning over splittings into <= 4 consecutive parts (all splittings for short lists, sampled otherwise); plus HISTORIES on the same objects (2-4 parts binned once, then 2-4 collectBinning calls over permutations / sub-multisets / repetitions of the same partial results, 1-d and 2-d; after every call the collected result and every partial result are read again) and ALL MAP OBSERVERS (isAvail, get, member access, ~, list(), size(), string(), =) on the bin descriptions in descr, xd and yDescr incl. both outer bins; cases in which a float operation of the code would round are skipped and counted; non-trivial = at least one element exactly on an edge and at least one in each outer bin (every history, and every observer case with count >= 1, counts as well); distinct by hash of the input"
 	cw := NewCaseWriter(outDir, "From Coq Require Import QArith.\nFrom P2 Require Import Base.Prelude Lib.Binning Run.C20Run.", "c20_case", "c20_id", "c20_im", "c20_is", perShard)
 	finish := func() {
 		sum.Extra["positions_redrawn_because_inexact"] = c20Redrawn
@@ -1355,6 +1424,7 @@ func cmdC20(seed int64, tier, outDir string) {
 		return
 	}
 	n1, n2, nm = n1*optBoost, n2*optBoost, nm*optBoost
+	nh1, nh2, nd = nh1*optBoost, nh2*optBoost, nd*optBoost
 	id := 0
 	for _, c := range c20Corpus() {
 		id++
@@ -1371,6 +1441,18 @@ func cmdC20(seed int64, tier, outDir string) {
 	for i := 0; i < nm; i++ {
 		id++
 		c20Run(r.c20GenMixed(), id, sum, cw)
+	}
+	for i := 0; i < nh1; i++ {
+		id++
+		c20Run(r.c20GenHistory(false), id, sum, cw)
+	}
+	for i := 0; i < nh2; i++ {
+		id++
+		c20Run(r.c20GenHistory(true), id, sum, cw)
+	}
+	for i := 0; i < nd; i++ {
+		id++
+		c20Run(r.c20GenDescr(), id, sum, cw)
 	}
 	finish()
 }
